@@ -305,7 +305,10 @@ def _check_sorted_iterator(ctx):
     ms = [n for n in ast.walk(f.node) if isinstance(n, ast.Call)
           and callee_is(prog, f, n, "mokapot.utils.merge_sort")]
     ctx.require(len(ms) == 1, f"{f.qual}: expected one merge_sort call")
-    merged = T.of(ms[0].args[0])
+    mb = prog.bind(prog.func("mokapot.utils.merge_sort"), ms[0])
+    ctx.require(mb.get("paths") is not None, f"{f.qual}: merge_sort called "
+                "without its list of paths")
+    merged = T.of(mb["paths"])
     bad = [x for x in walk_term(merged)
            if x[0] == "mcall" and x[2] in ("glob", "rglob", "iterdir")]
     ctx.check(not bad, "C09a-merge-written-list", f,
